@@ -418,12 +418,13 @@ func r183(c *an.Ctx) {
 		c.Count("table_rows", len(leaves))
 		okNil, okConj := true, true
 		why := ""
-		op := "<="
+		// comparisons of an integer with a constant are canonical in the table: `c <= 0` reads `c < 1`
+		op, bound := "<=", "1"
 		if t.strict {
-			op = "<"
+			op, bound = "<", "0"
 		}
-		a1 := "(call call pkg/time.cutPeriod(p1)#0.CompareTo(call pkg/time.cutPeriod(p2)#1) " + op + " 0)"
-		a2 := "(call call pkg/time.cutPeriod(p2)#0.CompareTo(call pkg/time.cutPeriod(p1)#1) " + op + " 0)"
+		a1 := "(call call pkg/time.cutPeriod(p1)#0.CompareTo(call pkg/time.cutPeriod(p2)#1) < " + bound + ")"
+		a2 := "(call call pkg/time.cutPeriod(p2)#0.CompareTo(call pkg/time.cutPeriod(p1)#1) < " + bound + ")"
 		nConj := 0
 		for _, l := range leaves {
 			if l.Undec != "" || l.Panics {
